@@ -3,6 +3,7 @@
 #include <nstd/Base.hpp>
 #include <nstd/Debug.hpp>
 #include "vf.h"
+#include "freelist.h"
 #include "tracked.h"
 #include <nstd/Map.hpp>
 #include <nstd/MultiMap.hpp>
@@ -32,6 +33,7 @@ struct Model { int k[CAP], v[CAP]; unsigned n; Model() : n(0) {}
 };
 static void check(M& m, const Model& md)
 {
+  vf_checkFreeList(m);
   vf_assert(m.size() == md.n, "size() == model");
   unsigned i = 0;
   for(M::Iterator it = m.begin(); it != m.end(); ++it, ++i)
